@@ -893,3 +893,54 @@ def c10(tier):
                     tasks.append(f_task(f"c10-3x-{''.join(s1)}|{''.join(s2)}|{''.join(s3)}", "cluster", drivers, "C10", (3, 0)))
         bounds = "2 handles x every pair of sequences of length <=2 over the full alphabet {D,P,p,d,us(a|c),uc(a|c),m,h,g}, all interleavings; length 3 over the core alphabet (every 7th partner) at budget 3; 3 handles x length <=2 (subsample of partners, stated strides) at budget 3"
     return explore_check("C10", tier, tasks, F_RULE, F_ASSUMPTIONS + ["reference for return values/final files: the same operations executed one at a time in lock-acquisition order by the real Cluster class (linearizability witness); mutual exclusion, promotion and stale-write clauses are independent of it"], dict(bounds=bounds))
+
+
+# ------------------------------------------------------------------------------ C12
+def cyclic_tasks(oracles):
+    tasks = []
+    k = 0
+    for bb in S.digraphs(3):
+        if S._acyclic(bb):
+            continue
+        for tag, gkw in (("sz1", dict(size=1)), ("sz3", dict(size=3))):
+            for fl in (0, 1):
+                sc = mk_scen(bb, gkw, cancel=[fl] * 3, exit_codes=(1, 0, 0) if fl else None)
+                tasks.append(dict(id=f"cyc{k}-{tag}-f{fl}", scen=sc, oracles=["Obs"] + oracles, budget=(0, 0), cls="cycle"))
+        k += 1
+    return tasks
+
+
+@check("C12")
+def c12(tier):
+    tasks = []
+    graphs = ["pair", "chain3", "fork", "join", "diamond", "twocomp"] if tier == "quick" else list(S.REP)
+    params = [("sz1-mxN", dict(size=1, max_nodes=None)), ("sz2-mx2", dict(size=2, max_nodes=2))]
+    fb = 1 if tier == "quick" else 2
+    for flags in (0, 1):
+        for t in rep_tasks(["C12"], (0, fb), graphs=graphs, params=params,
+                           exit_sets=(lambda n: [None, (1,) + (0,) * (n - 1)]) if flags else None,
+                           cancel_sets=(lambda n: [(1,) * n]) if flags else None):
+            t["fault"] = dict(plan="c12")
+            t["id"] += f"-fl{flags}-faults{fb}"
+            t["cls"] = "faults+" + t["cls"]
+            tasks.append(t)
+    if tier == "thorough":
+        for t in rep_tasks(["C12"], (1, 1), graphs=["chain3", "fork", "join", "twocomp"], params=params[:1]):
+            t["fault"] = dict(plan="c12")
+            t["id"] += "-p1f1"
+            tasks.append(t)
+        # node kill inside a result append (L2 points of the node's critical sections)
+        for t in rep_tasks(["C12"], (0, 1), graphs=["pair", "chain3", "fork"], params=params[:1]):
+            t["fault"] = dict(plan="c12", refuse=False)
+            t["scen"]["level"] = 2
+            t["id"] += "-L2"
+            t["cls"] = "faults-L2"
+            tasks.append(t)
+    tasks += cyclic_tasks(["C12"])
+    bounds = (f"{len(graphs)} REP graphs x 2 batchings (x failing job + cancel flags) with every set of <= {fb} faults out of: any sbatch refused on all attempts, "
+              "any node killed at any sync point of its job phase (before start, before each launch, at each poll, between a job's exit and its result append, before its try-submit-jobs); "
+              "then the re-armed recovery actor; all 39 cyclic digraphs on 3 jobs x 2 batch sizes x flags (no faults)"
+              + ("; 1 preemption + 1 fault on 4 graphs; kill points inside the node's critical sections (L2) on 3 graphs" if tier == "thorough" else ""))
+    return explore_check("C12", tier, tasks, S_RULE + "; fault alternatives cost 1 from a separate fault budget", COMMON_ASSUMPTIONS + [
+        "a refused sbatch is a clean failure (the scheduler did not accept the job); a killed node is gone from squeue at once",
+        "a job whose process finished but whose row was not yet appended when the node died counts as missing"], dict(bounds=bounds))
